@@ -425,6 +425,33 @@ theorem run_matches_reference (ops : List Op) :
     List.Forall₂ OutRel (runOuts {} ops) (srunOuts {} ops) ∧ Sim (runOps {} ops) (srunOps {} ops) :=
   ⟨(run_sim ops init_sim).2, (run_sim ops init_sim).1⟩
 
+/-- the clock is not an input of the slot chain: moving it (to 0, to 1, backwards, …) between any two ops changes neither the
+    state nor any answer — deleting all clock ops from a history leaves the final state unchanged and every other answer in place -/
+theorem clock_irrelevant_step (s : State) (t : Nat) : step s (.clock t) = (s, .none) := rfl
+
+def isClock : Op → Bool
+  | .clock _ => true
+  | _ => false
+
+/-- every op of a history with the model's answer to it -/
+def runTrace (s : State) : List Op → List (Op × Out)
+  | [] => []
+  | o :: r => (o, (step s o).2) :: runTrace (step s o).1 r
+
+theorem clock_irrelevant (ops : List Op) (s : State) :
+    runOps s (ops.filter (fun o => !isClock o)) = runOps s ops ∧
+    runTrace s (ops.filter (fun o => !isClock o)) = (runTrace s ops).filter (fun p => !isClock p.1) := by
+  induction ops generalizing s with
+  | nil => exact ⟨rfl, rfl⟩
+  | cons o r ih =>
+    cases o with
+    | clock t =>
+      obtain ⟨h1, h2⟩ := ih s
+      exact ⟨by simpa [isClock, runOps, step] using h1, by simpa [isClock, runTrace, step] using h2⟩
+    | _ =>
+      obtain ⟨h1, h2⟩ := ih (step s _).1
+      exact ⟨by simpa [isClock, runOps] using h1, by simpa [isClock, runTrace] using h2⟩
+
 example : ∃ s' : SState, s'.hazard "e1" = true :=
   ⟨{ chains := [("A", [.r { id := 1, order := 0, beh := .block .own 3 }])],
      entries := [{ name := "e2", chain := "A", blockPanic := true, panicked := true }] }, by decide⟩
